@@ -76,6 +76,10 @@ let step (m : MockConsts.mapping) (d : display) (out : string list ref) (tok : s
   | ["fc"; x; y; w; h; cs] -> get (apply_op d (OpFillContiguous (rc x y w h, colors_of cs)))
   | ["cl"; c] -> get (apply_op d (OpClear (z_in c)))
   | ["sp"; x; y; c] -> get (apply_op d (OpSetPixel (pt x y, if c = "n" then None else Some (z_in c))))
+  | "sps" :: c :: rest ->
+      let body = Stdlib.String.concat ":" rest in
+      let l = if body = "" then [] else Stdlib.List.map (fun s -> match split ':' s with [x; y] -> pt x y | _ -> failwith "pt") (split ';' body) in
+      get (apply_op d (OpSetPixels (l, if c = "n" then None else Some (z_in c))))
   | ["ao"; b] -> get (apply_op d (OpSetAllowOverdraw (b = "1")))
   | ["ab"; b] -> get (apply_op d (OpSetAllowOob (b = "1")))
   | ["gp"; x; y] -> emit (opt_out z_out (get (get_pixel d (pt x y)))); d
